@@ -14,6 +14,7 @@ import (
 	"fmt"
 	"math/rand"
 	"os"
+	"reflect"
 	"runtime/debug"
 )
 
@@ -38,6 +39,8 @@ type Ctx struct {
 	NEv    int
 	OpCnt  map[string]int
 	Arg    map[string]string
+	// Prelude calls are re-executed at the start of every batch history (e.g. Config).
+	Prelude []Event
 }
 
 func (c *Ctx) Thorough() bool { return c.Tier == "thorough" }
@@ -52,6 +55,13 @@ func (c *Ctx) Pick(q, t int) int {
 
 // Add appends a stateless event to the current batch history.
 func (c *Ctx) Add(e Event) {
+	if len(c.cur) == 0 {
+		for _, p := range c.Prelude {
+			pe := Do(nil, p)
+			c.cur = append(c.cur, pe)
+			c.count(pe)
+		}
+	}
 	c.cur = append(c.cur, e)
 	c.count(e)
 	if len(c.cur) >= c.Batch {
@@ -68,7 +78,8 @@ func (c *Ctx) count(e Event) {
 
 // Flush closes the current batch history.
 func (c *Ctx) Flush() {
-	if len(c.cur) == 0 {
+	if len(c.cur) <= len(c.Prelude) {
+		c.cur = nil
 		return
 	}
 	c.writeHist(c.cur)
@@ -83,7 +94,52 @@ func (c *Ctx) Hist(ev []Event) {
 	c.writeHist(ev)
 }
 
+// denil replaces nil slices / maps by empty ones (TLC's JSON reader rejects null).
+func denil(v interface{}) interface{} {
+	if v == nil {
+		return []int{}
+	}
+	rv := reflect.ValueOf(v)
+	switch rv.Kind() {
+	case reflect.Slice:
+		if rv.IsNil() {
+			return []int{}
+		}
+		if rv.Type().Elem().Kind() == reflect.Interface {
+			out := make([]interface{}, rv.Len())
+			for i := 0; i < rv.Len(); i++ {
+				out[i] = denil(rv.Index(i).Interface())
+			}
+			return out
+		}
+		if rv.Type().Elem().Kind() == reflect.Map {
+			out := make([]interface{}, rv.Len())
+			for i := 0; i < rv.Len(); i++ {
+				out[i] = denil(rv.Index(i).Interface())
+			}
+			return out
+		}
+		return v
+	case reflect.Map:
+		if rv.IsNil() {
+			return map[string]interface{}{}
+		}
+		if m, ok := v.(map[string]interface{}); ok {
+			out := make(map[string]interface{}, len(m))
+			for k, x := range m {
+				out[k] = denil(x)
+			}
+			return out
+		}
+		return v
+	}
+	return v
+}
+
 func (c *Ctx) writeHist(ev []Event) {
+	for i := range ev {
+		ev[i] = denil(ev[i]).(map[string]interface{})
+	}
 	c.nh++
 	b, err := json.Marshal(History{H: c.nh, Ev: ev})
 	if err != nil {
